@@ -83,8 +83,27 @@ def _mutate(ev):
     return None
 
 
+def _case_of_event(ev):
+    """--replay: the generated case is looked up by id in the last run's case file"""
+    if ev.get("ev") == "Stable" or ev.get("ev") == "SyntaxSkip":
+        src = ev.get("src", "")
+        if os.path.exists(src):
+            return dict(kind="file", id="replay", path=src)
+        for c in embedded_policies():
+            if c["src"] == src:
+                return dict(c, id="replay")
+        raise vlib.ToolError("cannot find source %s" % src)
+    for name in ("mc_syntax.cases.ndjson", "replay.cases.ndjson"):
+        path = os.path.join(vlib.workdir("C05"), name)
+        if os.path.exists(path):
+            for c in vlib.read_ndjson(path):
+                if c.get("id") == ev.get("id"):
+                    return c
+    raise vlib.ToolError("case %s not found: run ./check C05 first" % ev.get("id"))
+
+
 C05 = dict(
-    family="syntax", trace_module="Trace_Syntax.tla",
+    family="syntax", trace_module="Trace_Syntax.tla", case_of_event=_case_of_event,
     models=[dict(name="mc_syntax", module="MC_Syntax.tla",
                  cfg=dict(quick="MC_Syntax_quick.cfg", thorough="MC_Syntax_thorough.cfg"), cases=_case)],
     extra_traces=_corpus,
